@@ -65,3 +65,69 @@ func VerifH_C20_reqlist() {
 	vCover("C20.reqlist.ok-split", ok && split == 2)
 	vCover("C20.reqlist.pseudo-after-regular-across-frames", !ok && split == 2 && len(s.handled) == 0)
 }
+
+var vRespMenu = [7]vMenuField{
+	{":status", "200"}, {":status", "404"}, {"x-ok", "1"}, {"content-length", "2"},
+	{"connection", "close"}, {"X-Up", "1"}, {":path", "/"},
+}
+
+// The response side: a response header list of 3 fields from a menu of seven
+// (:status twice with different values, two harmless fields, a
+// connection-specific field, an upper-case name, a request pseudo-header),
+// in one HEADERS frame or split at a field boundary into HEADERS +
+// CONTINUATION, followed by a 2-byte body, through the client's real loops:
+// the caller gets the response exactly when the list is well-formed (one
+// :status, first; lower-case names; no connection-specific field), and an
+// error for that request alone otherwise.
+//
+//verif:harness prop=C20 unwind=200 timeout=600
+func VerifH_C20_reslist() {
+	n := 3
+	statusSeen, regular, ok := 0, false, true
+	var frags [][]byte
+	for i := 0; i < n; i++ {
+		f := vRespMenu[vRange(0, 6)]
+		switch {
+		case f.name == ":status":
+			statusSeen++
+			ok = ok && !regular && statusSeen == 1
+		case f.name[0] == ':':
+			ok = false
+		default:
+			regular = true
+			ok = ok && f.name != "connection" && f.name != "X-Up"
+		}
+		frags = append(frags, vLiteralField([]byte(f.name), []byte(f.value)))
+	}
+	ok = ok && statusSeen == 1
+	split := vRange(1, n)
+	cl := vStartClient()
+	a := cl.request("GET", "/a", nil)
+	b := cl.request("GET", "/b", nil)
+	cl.sent()
+	var first, rest []byte
+	for i, fr := range frags {
+		if i < split {
+			first = append(first, fr...)
+		} else {
+			rest = append(rest, fr...)
+		}
+	}
+	if split == n {
+		cl.feed(vFrame(0x1, 0x4, 1, first))
+	} else {
+		cl.feed(vFrame(0x1, 0x0, 1, first))
+		cl.feed(vFrame(0x9, 0x4, 1, rest))
+	}
+	cl.feed(vFrame(0x0, 0x1, 1, []byte("ok")))
+	// the other request is answered properly afterwards
+	cl.feed(vFrame(0x1, 0x4, 3, vRespBlock(true, 'b')))
+	cl.feed(vFrame(0x0, 0x1, 3, []byte("nf")))
+	da, ea := a.outcome()
+	db, eb := b.outcome()
+	vAssert(da, "C20.reslist.request-ends")
+	vAssert((ea == nil) == ok, "C20.reslist.delivered-iff-well-formed")
+	vAssert(db && eb == nil && b.res.StatusCode() == 404, "C20.reslist.other-request-unaffected")
+	vCover("C20.reslist.ok", ok && split == 2)
+	vCover("C20.reslist.two-status", !ok && statusSeen == 2)
+}
